@@ -210,6 +210,13 @@ impl RotationState {
     }
 }
 
+#[cfg(dswd_vpncloud_verif)]
+impl RotationState {
+    pub fn verif_state(&self) -> (u64, bool, bool, bool, bool) {
+        (self.message_id, self.proposed.is_some(), self.pending.is_some(), self.confirmed.is_some(), self.timeout)
+    }
+}
+
 #[cfg(test)]
 mod tests {
     use super::*;
